@@ -270,11 +270,15 @@ def dp_vcs(ctx=None):
     one = z3.RealVal(1)
 
     def spec_for(ci, cd, cs):
+        """(quantified definition of D, builder of its instance at one cell)"""
         neq = lambda rr, jj, nn: z3.If(REF(rr, nn) != HYP(jj, nn), cs, z3.RealVal(0))
-        return [z3.ForAll([n], D(n, 0, 0) == 0),
-                z3.ForAll([n, r], z3.Implies(r >= 1, D(n, r, 0) == D(n, r - 1, 0) + cd)),
-                z3.ForAll([n, j], z3.Implies(j >= 1, D(n, 0, j) == D(n, 0, j - 1) + ci)),
-                z3.ForAll([n, r, j], z3.Implies(z3.And(r >= 1, j >= 1), D(n, r, j) == mn(mn(D(n, r, j - 1) + ci, D(n, r - 1, j - 1) + neq(r - 1, j - 1, n)), D(n, r - 1, j) + cd)))]
+        c00 = lambda nn: D(nn, 0, 0) == 0
+        cr0 = lambda nn, rr: z3.Implies(rr >= 1, D(nn, rr, 0) == D(nn, rr - 1, 0) + cd)
+        c0j = lambda nn, jj: z3.Implies(jj >= 1, D(nn, 0, jj) == D(nn, 0, jj - 1) + ci)
+        crj = lambda nn, rr, jj: z3.Implies(z3.And(rr >= 1, jj >= 1), D(nn, rr, jj) == mn(mn(D(nn, rr, jj - 1) + ci, D(nn, rr - 1, jj - 1) + neq(rr - 1, jj - 1, nn)), D(nn, rr - 1, jj) + cd))
+        quantified = [z3.ForAll([n], c00(n)), z3.ForAll([n, r], cr0(n, r)), z3.ForAll([n, j], c0j(n, j)), z3.ForAll([n, r, j], crj(n, r, j))]
+        at_cell = lambda nn, rr, jj: z3.And(c00(nn), cr0(nn, rr), c0j(nn, jj), crj(nn, rr, jj))
+        return quantified, at_cell
 
     out = []
     J0 = z3.Int("j0")
@@ -283,9 +287,7 @@ def dp_vcs(ctx=None):
     configs = [C(), C(eos_set=False), C(include_eos=True), C(batch_first=True), C(norm=True), C(uniform=True), C(uniform=True, norm=True, include_eos=True),
                C(prefix=True), C(prefix=True, include_eos=True, batch_first=True), C(prefix=True, exclude_last=True), C(prefix=True, norm=True),
                C(prefix=True, uniform=True, exclude_last=True, batch_first=True)]
-    if ctx is not None and ctx.quick:
-        configs = [c for i, c in enumerate(configs) if i in (0, 1, 2, 3, 5, 7, 8, 9, 10)]
-    for cfg in configs:
+    def make_vc(cfg):  # one scope per configuration (the helpers below close over its constants)
         prefix, eos_set, include_eos, batch_first, norm, uniform, excl = (cfg[k] for k in ("prefix", "eos_set", "include_eos", "batch_first", "norm", "uniform", "exclude_last"))
         name = "%s[symbolic R,H,N; eos=%s,include_eos=%s,batch_first=%s,norm=%s,exclude_last=%s; %s costs]" % (
             "prefix_edit_distances" if prefix else "edit_distance", "set" if eos_set else "unset", include_eos, batch_first, norm, excl, "equal" if uniform else "unequal")
@@ -315,39 +317,56 @@ def dp_vcs(ctx=None):
                 L = LR if len(calls) == 1 else LH  # the function asks for the reference lengths first, then the hypothesis lengths
                 I2.ex.oblige("lens.called_on_time_major_tensor_dim0", z3.And(z3.BoolVal(a[2] == 0), ip.to_z3(tok.shape[0]) == (R if len(calls) == 1 else H), ip.to_z3(tok.elem(R0, N0)) == (REF if len(calls) == 1 else HYP)(R0, N0)))
                 T = tok.shape[0]
-                I2.ex.assume(z3.ForAll([n], z3.Implies(z3.And(0 <= n, n < N), z3.And(0 <= L(n), L(n) <= ip.to_z3(T)))))
+                bound = lambda nn: z3.Implies(z3.And(0 <= nn, nn < N), z3.And(0 <= L(nn), L(nn) <= ip.to_z3(T)))
+                I2.ex.assume(z3.ForAll([n], bound(n)))
+                I2.ex.instance(bound(N0))
                 return stn.ST((N,), lambda a_: L(ip.to_z3(a_)), "long")
 
             I.contracts["pydrobert.torch._string._lens_from_eos"] = lens_contract
+            I.ex.ghost["any_points"] = {1: [(N0,)], 2: [(0, N0)]}  # every any() contract is instantiated at the skolem batch element
             if not eos_set:
                 I.ex.assume(z3.ForAll([n], z3.And(LR(n) == R, LH(n) == H)))
+                I.ex.instance(z3.And(LR(N0) == R, LH(N0) == H))
             kw = dict(eos=EOS if eos_set else None, include_eos=include_eos, norm=norm, batch_first=batch_first, ins_cost=INS, del_cost=DEL, sub_cost=SUB, warn=False)
             if prefix:  # through the public wrappers: their argument forwarding is part of what is verified
                 return I.call(F.prefix_edit_distances, [ref, hyp], dict(kw, padding=PAD, exclude_last=excl))
             return I.call(F.edit_distance, [ref, hyp], kw)
 
-        def pe_inv(f, k, CAP=CAP):  # prefix mode: FORALL j <= k. prefix_ers[j, n0] = D(n0, ref_len, min(j, cap))
+        def pe_at(f, k, jj, CAP=CAP):
             pe = f.locals["prefix_ers"]
-            return z3.ForAll([j], z3.Implies(z3.And(0 <= j, j <= k), ip.to_z3(pe.elem(j, N0)) == D(N0, RL0, mn(j, CAP))))
+            return z3.Implies(z3.And(0 <= jj, jj <= k), ip.to_z3(pe.elem(jj, N0)) == D(N0, RL0, mn(jj, CAP)))
+
+        def pe_inv(f, k):  # prefix mode: FORALL j <= k. prefix_ers[j, n0] = D(n0, ref_len, min(j, cap))
+            return z3.ForAll([j], pe_at(f, k, j))
+
+        def row_at(row, rr, jj):
+            return z3.Implies(z3.And(0 <= rr, rr <= R), ip.to_z3(row.elem(rr, N0)) == D(N0, rr, jj))
 
         def hyp_inv(I, f, k, CAP=CAP):  # FORALL r at the skolem batch element
             row = f.locals["row"]
-            return z3.ForAll([r], z3.Implies(z3.And(0 <= r, r <= R), ip.to_z3(row.elem(r, N0)) == D(N0, r, mn(k, CAP))))
+            return z3.ForAll([r], row_at(row, r, mn(k, CAP)))
 
         class DPLoop(LoopSpec):
-            def run(self, I, s, f, prefix=prefix, CAP=CAP, LAST=LAST, ROWS=ROWS):
+            def run(self, I, s, f, prefix=prefix, CAP=CAP, LAST=LAST, ROWS=ROWS, SPEC_AT=None):
+                SPEC_AT = self.spec_at
                 row0 = f.locals["row"]
                 at = lambda row, rr, jj: ip.to_z3(row.elem(rr, N0)) == D(N0, rr, jj)
                 # the lengths the loop works with are the spec lengths
                 same = z3.And(ip.to_z3(f.locals["hyp_lens"].elem(N0)) == HL0, ip.to_z3(f.locals["ref_lens"].elem(N0)) == RL0)
                 I.ex.oblige("dp.lengths_are_spec_lengths", same)
                 I.ex.assume(same)  # proved just above as its own obligation; stated as a fact for the obligations that follow
-                # initialisation, by induction over r
-                I.ex.oblige("dp.init.base", at(row0, z3.IntVal(0), z3.IntVal(0)))
-                I.ex.oblige("dp.init.step", z3.Implies(z3.And(1 <= R0, R0 <= R, at(row0, R0 - 1, z3.IntVal(0))), at(row0, R0, z3.IntVal(0))))
+                # initialisation, by induction over r  (instances: the definition of D at the cells involved, lin recurrences)
+                g_base = at(row0, z3.IntVal(0), z3.IntVal(0))  # (element functions are lazy: building the goals first creates the lin_c terms)
+                g_step = z3.Implies(z3.And(1 <= R0, R0 <= R, at(row0, R0 - 1, z3.IntVal(0))), at(row0, R0, z3.IntVal(0)))
+                I.ex.instance(SPEC_AT(N0, R0, z3.IntVal(0)))
+                for x in stn.lin_instances(I, R0 - 1):
+                    I.ex.instance(x)
+                I.ex.oblige("dp.init.base", g_base)
+                I.ex.oblige("dp.init.step", g_step)
                 if prefix:
                     # the conclusion of the induction just proved (base + step), then the first prefix row (when there is one)
-                    I.ex.assume(z3.ForAll([r], z3.Implies(z3.And(0 <= r, r <= R), at(row0, r, z3.IntVal(0)))))
+                    I.ex.assume(z3.ForAll([r], row_at(row0, r, z3.IntVal(0))))
+                    I.ex.instance(row_at(row0, RL0, z3.IntVal(0)))
                     I.ex.oblige("dp.prefix.rows", ip.to_z3(f.locals["prefix_ers"].shape[0]) == ROWS)
                     I.ex.oblige("dp.prefix.init", z3.Implies(ROWS >= 1, ip.to_z3(f.locals["prefix_ers"].elem(z3.IntVal(0), N0)) == D(N0, RL0, 0)))
                     PE = stn._fresh("prefix_ers", z3.IntSort(), z3.IntSort(), z3.RealSort())
@@ -358,26 +377,49 @@ def dp_vcs(ctx=None):
                     k = I.ex.fresh("int", "iter")
                     I.ex.assume(z3.And(0 <= k, k < LAST))
                     I.ex.assume(hyp_inv(I, f, k))
+                    rowk = f.locals["row"]
+                    for rr in (R0, R0 - 1, z3.IntVal(0)):  # FORALL-elimination: the cells the step obligations read
+                        I.ex.instance(row_at(rowk, rr, mn(k, CAP)))
                     if prefix:
                         I.ex.assume(pe_inv(f, k))
+                        I.ex.instance(pe_at(f, k, J0))
                     it = I.eval(s.iter, f)  # the real range(...) of the loop: its bounds are checked against the iteration count used here
                     I.ex.oblige("dp.loop.range", z3.And(ip.to_z3(it.lo) == 1, mx(ip.to_z3(it.hi) - 1, 0) == LAST, ip.to_z3(it.step) == 1))
                     I.assign(s.target, k + 1, f)
+                    n_min = len(I.ex.ghost.get("mins", []))
                     I.exec_block(s.body, f)
                     row1 = f.locals["row"]
                     jn = mn(k + 1, CAP)
+                    # instances for the step: definition of D at the cells (R0, jn), (0, jn); the min(1) contract of the vectorised
+                    # deletion step at reference positions R0, R0 - 1 and 0 (lower bounds at the positions the proof compares,
+                    # attainment); lin recurrences at the distances involved
+                    I.ex.instance(SPEC_AT(N0, R0, jn))
+                    for mm in I.ex.ghost.get("mins", [])[n_min:]:
+                        w_ = lambda rr: mm["w"](rr, N0)
+                        for o, kk in (([R0, N0], R0), ([R0, N0], w_(R0 - 1)), ([R0 - 1, N0], w_(R0)), ([R0 - 1, N0], R0 - 1), ([z3.IntVal(0), N0], z3.IntVal(0))):
+                            I.ex.instance(mm["lb"](o, kk))
+                        for o in ([R0, N0], [R0 - 1, N0], [z3.IntVal(0), N0]):
+                            I.ex.instance(mm["att"](o))
+                        for dist in (R0 - 1 - w_(R0), R0 - 1 - w_(R0 - 1)):
+                            for x in stn.lin_instances(I, dist):
+                                I.ex.instance(x)
                     # preservation, by induction over r
                     I.ex.oblige("dp.step.base", at(row1, z3.IntVal(0), jn))
                     I.ex.oblige("dp.step.ind", z3.Implies(z3.And(1 <= R0, R0 <= R, at(row1, R0 - 1, jn)), at(row1, R0, jn)))
                     if prefix:
-                        I.ex.assume(z3.ForAll([r], z3.Implies(z3.And(0 <= r, r <= R), at(row1, r, jn))))  # conclusion of the induction over r
+                        I.ex.assume(z3.ForAll([r], row_at(row1, r, jn)))  # conclusion of the induction over r
+                        I.ex.instance(row_at(row1, RL0, jn))
                         I.ex.oblige("dp.prefix.step", z3.Implies(z3.And(0 <= J0, J0 <= k + 1), ip.to_z3(f.locals["prefix_ers"].elem(J0, N0)) == D(N0, RL0, mn(J0, CAP))))
                     raise PathAbort()
                 I.ex.assume(hyp_inv(I, f, LAST))
+                I.ex.instance(row_at(f.locals["row"], RL0, mn(LAST, CAP)))
                 if prefix:
                     I.ex.assume(pe_inv(f, LAST))
+                    I.ex.instance(pe_at(f, LAST, J0))
 
+        SPEC, SPEC_AT = spec_for(one, one, one) if uniform else spec_for(INS, DEL, SUB)
         loop = DPLoop("dp.loop", None, None, None, {})
+        loop.spec_at = SPEC_AT
 
         def post(p, prefix=prefix, batch_first=batch_first, norm=norm, excl=excl, MULT=MULT, ROWS=ROWS):
             if not api.returns(p) or not hasattr(p.value, "elem"):
@@ -399,18 +441,19 @@ def dp_vcs(ctx=None):
             return [("distance_is_D_at_the_lengths", ip.to_z3(p.value.elem(N0)) == value(HL0))]
 
         costs = [INS > 0, INS == DEL, DEL == SUB] if uniform else [INS > 0, DEL > 0, SUB > 0, z3.Not(z3.And(INS == DEL, DEL == SUB))]
-        pre = costs + [R >= 0, H >= 0, N >= 1, 0 <= N0, N0 < N, 0 <= R0, HL0 == HLs(N0), RL0 == RLs(N0), 0 <= J0, J0 <= H] + (spec_for(one, one, one) if uniform else spec_for(INS, DEL, SUB))
+        pre = costs + [R >= 0, H >= 0, N >= 1, 0 <= N0, N0 < N, 0 <= R0, HL0 == HLs(N0), RL0 == RLs(N0), 0 <= J0, J0 <= H] + SPEC
         lemmas = []
         if uniform:
             # c * D_1 obeys the recurrence of D_c: one cell, for arbitrary neighbours a (left), b (diagonal), d (up) and mismatch e in {0,1}
             a, b, d, c, e = z3.Reals("a_left b_diag d_up c_cost e_neq")
             lemmas = [("uniform_cost_scaling_step", [c > 0, z3.Or(e == 0, e == 1)], mn(mn(c * a + c, c * b + c * e), c * d + c) == c * mn(mn(a + 1, b + e), d + 1))]
-        out.append(VC("C01.P.dp", name, M, "_string_matching", thunk, pre=pre, posts=[("final", post)], loops={("_string_matching", 0): loop}, lemmas=lemmas,
+        return (VC("C01.P.dp", name, M, "_string_matching", thunk, pre=pre, posts=[("final", post)], loops={("_string_matching", 0): loop}, lemmas=lemmas,
                       inputs={"R": R, "H": H, "N": N}, timeout_ms=20000,
                       assumptions=["Wagner-Fischer recurrence = minimum over edit scripts (taken as the definition of D)",
                                    "min(dim) contract: lower bound of the finite entries, attained at a finite entry; any() contract; tensors as index functions (vf/pyvc/symtensor.py)",
                                    "index * cost products abstracted to lin_c(i) with lin_c(0) = 0, lin_c(i+1) = lin_c(i) + c", "float arithmetic treated as real arithmetic; x / 0 is an arbitrary value",
                                    "induction over the reference index and over the loop applied outside the solver; callee contract of _lens_from_eos (C01.P.lens_first_eos)",
                                    "equal costs: spec stated as c * D_1 (unit-cost table); the cell-wise scaling lemma is proved, the induction that lifts it to the whole table is applied outside the solver",
-                                   "configurations: public edit_distance and prefix_edit_distances in 12 flag combinations of eos, include_eos, batch_first, norm, exclude_last, equal/unequal costs (9 in the quick tier); every combination per shape is the S rung's"]))
+                                   "configurations: public edit_distance and prefix_edit_distances in 12 flag combinations of eos, include_eos, batch_first, norm, exclude_last, equal/unequal costs every combination per shape is the S rung's"]))
+    out = [make_vc(cfg) for cfg in configs]
     return out
